@@ -262,6 +262,33 @@ Definition redirect_spec (reenc : bool) (param dest enc relay url : string) : bo
   && strs_eqb (values_of "RelayState" (fst got)) (if nonempty relay then [relay] else [])
   && same_params (own_params (fst got)) (own_params (fst own)).
 
+(* two URL texts are the same request: same text before '?', same fragment, and
+   the queries decode (split on '&', first '=', percent-decoding, '+' = space) to
+   the same parameters with the same values — compared key by key, values of a
+   key in order, so that neither the spelling of an escape ("+" / "%20",
+   hex-digit case) nor the relative order of different parameters matters *)
+Definition url_equiv (a b : string) : bool :=
+  let '(ba, qa, fa) := split_url a in
+  let '(bb, qb, fb) := split_url b in
+  seqb ba bb && seqb fa fb
+  && pairs_eqb (encode_order (fst (parse_query qa))) (encode_order (fst (parse_query qb)))
+  && Bool.eqb (snd (parse_query qa)) (snd (parse_query qb)).
+
+(* the signed octet string of the redirect binding, taken RAW from the emitted
+   query: literally SAMLRequest=v1[&RelayState=v2]&SigAlg=v3 in this order,
+   where the values percent-decode to the message, the relay state and the
+   method (how each byte is escaped is the emitter's choice) *)
+Definition raw_kv (seg : string) : string * option string :=
+  let '(k, v) := cut_chr 61 seg in (k, query_unescape v).
+Definition kv_is (k v : string) (p : string * option string) : bool :=
+  seqb (fst p) k && opt_s_eqb (snd p) (Some v).
+Definition octets_ok (octets enc relay method : string) : bool :=
+  match map raw_kv (split_on 38 octets) with
+  | [a; b; c] => nonempty relay && kv_is "SAMLRequest" enc a && kv_is "RelayState" relay b && kv_is "SigAlg" method c
+  | [a; c] => negb (nonempty relay) && kv_is "SAMLRequest" enc a && kv_is "SigAlg" method c
+  | _ => false
+  end.
+
 (* AuthnRequest redirect case.  Inputs: endpoint, encoded message, relay state,
    method, key type; observed: class (0 ok / 1 error / 2 panic), URL text,
    the Signature parameter's decoded value (base64 text). *)
@@ -274,7 +301,7 @@ Definition arcase_model (c : arcase) :=
 
 Definition arcase_agree (c : arcase) : bool :=
   match arcase_model c with
-  | Ok (u, _) => (ar_cls c =? 0) && seqb u (ar_url c)
+  | Ok (u, _) => (ar_cls c =? 0) && url_equiv u (ar_url c)
   | Err _ => ar_cls c =? 1
   | Panic => ar_cls c =? 2
   end.
@@ -296,10 +323,10 @@ Definition arcase_spec (c : arcase) : bool :=
   if ar_cls c =? 0 then
     redirect_spec false "SAMLRequest" (ar_dest c) (ar_enc c) (ar_relay c) (ar_url c)
     && (if nonempty (ar_method c) && negb (has_saml_key (fst (parse_query (snd (fst (split_url (ar_dest c)))))))
-        then opt_s_eqb (octets_of_url (ar_url c))
-               (Some ("SAMLRequest=" +++ query_escape (ar_enc c)
-                      +++ (if nonempty (ar_relay c) then "&RelayState=" +++ query_escape (ar_relay c) else "")
-                      +++ "&SigAlg=" +++ query_escape (ar_method c)))
+        then match octets_of_url (ar_url c) with
+             | Some o => octets_ok o (ar_enc c) (ar_relay c) (ar_method c)
+             | None => false
+             end
         else true)
   else
     (* an error is the required outcome exactly when the method does not fit the key *)
@@ -310,7 +337,7 @@ Definition check_arcases := check_cases arcase_agree arcase_spec.
 (* Logout redirect case *)
 Record lrcase := { lr_kind : Z; lr_dest : string; lr_enc : string; lr_relay : string; lr_url : string }.
 Definition lrcase_agree (c : lrcase) : bool :=
-  seqb (logout_redirect (param_of (kind_of (lr_kind c))) (lr_dest c) (lr_enc c) (lr_relay c)) (lr_url c).
+  url_equiv (logout_redirect (param_of (kind_of (lr_kind c))) (lr_dest c) (lr_enc c) (lr_relay c)) (lr_url c).
 Definition lrcase_spec (c : lrcase) : bool :=
   redirect_spec true (param_of (kind_of (lr_kind c))) (lr_dest c) (lr_enc c) (lr_relay c) (lr_url c).
 Definition check_lrcases := check_cases lrcase_agree lrcase_spec.
